@@ -193,7 +193,7 @@ def falsifier(ctx, n: int) -> None:
         # length
         seg = LT.build_segment(recs)
         tot = sum(float(r.get("L", 0.0)) for r in LT.leaves(recs))
-        if abs(float(seg.length) - tot) > 1e-9 * max(1.0, tot) or abs(float(seg.flattened().length) - tot) > 1e-9 * max(1.0, tot):
+        if not abs(float(seg.length) - tot) <= 1e-9 * max(1.0, tot) or not abs(float(seg.flattened().length) - tot) <= 1e-9 * max(1.0, tot):
             rep.fail("falsifier", "C01|Segment.length", f"Segment.length {float(seg.length)} != sum of element lengths {tot}",
                      {"kind": "length", "records": recs})
     # empty segment (reachable through subcell)
